@@ -411,5 +411,17 @@ theorem mapM_length {α β} (f : α → Option β) : ∀ (l : List α) (r : List
         subst h
         simp [ih ys hxs]
 
+theorem joinKey_injective (a b : List Bytes) (hl : a.length = b.length) (h : joinKey a = joinKey b) : a = b := by
+  cases a with
+  | nil => cases b with
+    | nil => rfl
+    | cons _ _ => simp at hl
+  | cons x xs => cases b with
+    | nil => simp at hl
+    | cons y ys =>
+      have := congrArg (fun s => decKey s []) h
+      simpa [dec_joinKey] using this
+
+
 end Lemmas.C11
 end Miller
